@@ -168,12 +168,35 @@ def batch_ops_and_names(seed):
     return res
 
 
+def batch_dups():
+    """repeated / case-variant constraints must all reach the export (see c10.batch_dups)."""
+    from . import rt
+    res = {'instances': 0, 'nontrivial': 0, 'violations': [], 'native_runs': 0, 'programs': 0, 'disagreements_checked': 0}
+    extra = [[('REQUIRES', 'Gui', 'Core'), ('EXCLUDES', 'GUI', 'Core')], [('IMPLIES', 'Core', 'Gui'), ('IMPLIES', 'core', 'GUI')]]
+    for trees in rt.DUP_CTC_SETS + extra:
+        names = list(rt.DUP_NAMES) if not any('core' in R.tree_names(t) for t in trees) else ['Root', 'Gui', 'GUI', 'Core', 'core']
+        shape = rt.DUP_SHAPE if len(names) == 4 else (((),), ((),), ((),), ((),))
+        for cards in ([(0, 1)] * (len(names) - 1), [(1, 1)] + [(0, 1)] * (len(names) - 2)):
+            args = [shape, cards, trees, names, None]
+            res['instances'] += 1
+            res['programs'] += 1
+            res['nontrivial'] += 1
+            res['native_runs'] += 1
+            bad = replay_export(*args)
+            if bad:
+                res['disagreements_checked'] += 1
+                res['violations'].append({'label': 'clafer-export', 'detail': bad[0], 'replay_func': 'replay_export', 'replay_args': args})
+    res['sample'] = {'names': rt.DUP_NAMES, 'constraints': rt.DUP_CTC_SETS[0]}
+    return res
+
+
 def batches(tier, seed):
     N = 4 if tier == 'quick' else 5
     total = len([s for s in R.shapes(N) if in_fragment_shape(s)])
     step = total // 12 + 1
     b = [('batch_exports', [N, lo, lo + step, seed + lo, 3 if tier == 'quick' else 6]) for lo in range(0, total, step)]
     b.append(('batch_ops_and_names', [seed]))
+    b.append(('batch_dups', []))
     return b
 
 
